@@ -7,6 +7,7 @@ FUNC = "solve_masyu"
 LOOP = True
 VALUES = [0, 1, 2]
 TIER1 = ("Masyu", "solve_masyu_model")
+TIER1_PRIM = ("MasyuPrim", "solve_masyu_model_prim")
 
 
 def call(mod, pb):
